@@ -210,6 +210,60 @@ def windows(core="F"):
     return out
 
 
+def per_device(devs, thorough=False):
+    """the same interface under EVERY device row (D:<name>): the instruction encoder may depend on the selected device only
+    through the reduced-core flag (C13_same_code), so each device gets every mnemonic once plus the operands at which a
+    device figure (flash words, RAM start/end, EEPROM size) could be mistaken for a limit of the instruction: relative
+    targets at both range ends and one flash size away, absolute addresses around the flash size, lds/sts addresses around
+    the RAM window, ports and immediates at their ends.  devs = rows of gen.read_devices (first row = default device)."""
+    out = []
+    for name, flash, ram_start, ram_size, eeprom, opts in devs[1:]:
+        c = "D:" + name
+        a = out.append
+        ram_end = ram_start + ram_size
+        red = "Avr8l" in opts
+        # one of everything
+        a("%s 0 add r1,r2" % c); a("%s 0 ldi r16,e255" % c); a("%s 0 ldi r31,e-128" % c); a("%s 0 com r7" % c)
+        a("%s 0 adiw r24,e63" % c); a("%s 0 adiw r24,e64" % c); a("%s 0 movw r2,r4" % c); a("%s 0 mul r1,r2" % c)
+        a("%s 0 in r1,e63" % c); a("%s 0 in r1,e64" % c); a("%s 0 out e63,r1" % c); a("%s 0 out e64,r1" % c)
+        a("%s 0 sbi e31,e7" % c); a("%s 0 sbi e32,e7" % c); a("%s 0 cbi e31,e8" % c); a("%s 0 bset e7" % c); a("%s 0 bset e8" % c)
+        a("%s 0 sbrc r1,e7" % c); a("%s 0 bld r1,e8" % c); a("%s 0 push r1" % c); a("%s 0 pop r31" % c)
+        for op in NOARG:
+            a("%s 0 %s -" % (c, op))
+        for i in IDX:
+            a("%s 0 ld r3,%s" % (c, i)); a("%s 0 st %s,r3" % (c, i))
+        for q in (0, 1, 63, 64):
+            for y in "YZ":
+                a("%s 0 ldd r3,%s+q%d" % (c, y, q)); a("%s 0 std %s+q%d,r3" % (c, y, q))
+        a("%s 0 lpm r3,Z" % c); a("%s 0 lpm r3,Z+" % c); a("%s 0 elpm r3,Z" % c); a("%s 0 elpm r3,Z+" % c)
+        # relative: both ends of the field, and one flash size (in words and in bytes) beyond - at several addresses
+        wraps = sorted(set([0, flash, -flash, 2 * flash, -2 * flash, flash // 2, -(flash // 2), 4096, -4096, 8192, -8192, 128, -128]))
+        pcs = sorted(set([0, 1, 2047, 2048, max(flash - 1, 0), max(flash // 2, 0), max(flash - 2049, 0)]))
+        for pc in pcs:
+            for op, lim in (("rjmp", 2048), ("rcall", 2048), ("breq", 64), ("brcc", 64)):
+                for rel in (-lim - 1, -lim, -lim + 1, -1, 0, 1, lim - 2, lim - 1, lim, lim + 1):
+                    for w in (wraps if op[0] == "r" or thorough else (0, 128, -128, flash, -flash)):
+                        a("%s %d %s e%d" % (c, pc, op, pc + 1 + rel + w))
+            a("%s %d brbs e3,e%d" % (c, pc, pc + 1 + 63)); a("%s %d brbs e3,e%d" % (c, pc, pc + 1 + 64))
+            a("%s %d brbc e0,e%d" % (c, pc, pc + 1 - 64)); a("%s %d brbc e0,e%d" % (c, pc, pc + 1 - 65))
+            # targets inside the flash that are out of reach, and targets outside the flash that are in reach
+            for t in (0, flash - 1, flash, flash + 1, 2 * flash - 1, 2 * flash):
+                a("%s %d rjmp e%d" % (c, pc, t)); a("%s %d rcall e%d" % (c, pc, t)); a("%s %d brne e%d" % (c, pc, t))
+        # absolute: around the flash size in words and bytes, both ends of the 22-bit field
+        for k in sorted(set([0, 1, flash - 1, flash, flash + 1, 2 * flash - 1, 2 * flash, 2 * flash + 1, 65535, 65536, 4194303, 4194304, -1])):
+            a("%s 0 jmp e%d" % (c, k)); a("%s 0 call e%d" % (c, k))
+        # data space: around the register file, the I/O window, RAM start and end, EEPROM size, the 16-bit end; reduced core 0x40..0xbf
+        ks = [-1, 0, 31, 32, 63, 64, 95, 96, 191, 192, 255, 256, ram_start - 1, ram_start, ram_start + 1, ram_end - 2, ram_end - 1, ram_end,
+              ram_end + 1, ram_size - 1, ram_size, ram_size + 1, eeprom - 1, eeprom, eeprom + 1, 2 * ram_end, 32767, 32768, 65534, 65535, 65536]
+        for k in sorted(set(k for k in ks if -2 < k < 2 ** 17)):
+            for d in ((16, 31) if red else (0, 16, 31)):
+                a("%s 0 lds r%d,e%d" % (c, d, k)); a("%s 0 sts e%d,r%d" % (c, k, d))
+        if red:
+            for d in (0, 15):
+                a("%s 0 lds r%d,e100" % (c, d)); a("%s 0 sts e100,r%d" % (c, d))
+    return list(dict.fromkeys(out))
+
+
 KINDS = ["r5", "r20", "e3", "X", "Y+", "-Z", "Y+q1", "Z"]
 
 
@@ -231,4 +285,4 @@ def tag(line):
     """coarse class of a case, for the measured distribution in the evidence"""
     f = line.split(" ")
     n = 0 if f[3] == "-" else f[3].count(",") + 1
-    return "%s/%d-operand" % (f[0], n)
+    return "%s/%d-operand" % ("D" if f[0].startswith("D:") else f[0], n)
